@@ -12,7 +12,8 @@ for d in seeded/*/; do
   elif [ -f $d/patch_head.diff ] && git -C /tmp/seedrepo apply --check $PWD/$d/patch_head.diff 2>/dev/null; then pf=$PWD/$d/patch_head.diff; fi   # re-created on newer sources
   if [ -n "$pf" ]; then
     r=$(SEEDREPO=/tmp/seedrepo ./seedtest.sh rg_$n $pf $p 2>&1 | grep "^rg_" | head -1 | cut -c1-120)
-    echo "$n :: $(basename $pf) :: $r"
+    note=$(python3 -c "import json,sys; print(json.load(open('$d/meta.json')).get('status_at_head','')[:160])" 2>/dev/null)
+    echo "$n :: $(basename $pf) :: $r${note:+ :: NOTE $note}"
   else
     echo "$n :: patch no longer applies to HEAD (base 68cac15)"
   fi
